@@ -259,7 +259,7 @@ pub fn run_scenario<K: HKey>(sc: &Value, scratch: &Path, out: &mut Out) {
     let ops: Vec<Value> = sc["ops"].as_array().cloned().unwrap_or_default();
     let sel0 = sc["chunk"].as_u64().unwrap_or(0) as usize;
     match mode.as_str() {
-        "plain" => run_plain::<K>(&sid, &cfg, &ops, sel0, scratch, out, &mode),
+        "plain" => run_plain::<K>(&sid, &cfg, &ops, sel0, scratch, out, &mode, sc["env"]["short_writes"].as_bool().unwrap_or(false)),
         "crash" | "power" => run_crash::<K>(&sid, &cfg, &ops, sel0, scratch, out, &mode, &sc["env"]),
         "fault" => run_fault::<K>(&sid, &cfg, &ops, sel0, scratch, out, &sc["env"]),
         "damage" => crate::damage::run_damage::<K>(&sid, &cfg, &ops, sel0, scratch, out, &sc["env"]),
@@ -277,11 +277,18 @@ fn fresh_root(scratch: &Path) -> PathBuf {
     root
 }
 
-fn run_plain<K: HKey>(sid: &Value, cfg: &Cfg, ops: &[Value], sel0: usize, scratch: &Path, out: &mut Out, mode: &str) {
+#[allow(clippy::too_many_arguments)]
+fn run_plain<K: HKey>(sid: &Value, cfg: &Cfg, ops: &[Value], sel0: usize, scratch: &Path, out: &mut Out, mode: &str, short_writes: bool) {
     let root = fresh_root(scratch);
     out.emit(&json!({"ev": "reset", "sid": sid, "cfg": cfg.to_json(), "mode": mode}));
     let mut st = Store::<K>::new(&root, cfg);
-    shim::install_monitor(&root); // no boundaries, only the watch for in-place writes under cas/ (if the shim is loaded)
+    if short_writes && shim::available() {
+        // environment "short writes": every write(2) of more than one byte on a file of the store accepts only half of what
+        // it is offered. This is legal kernel behaviour; nothing observable may change (the model has no such step at all).
+        shim::install(&root, Box::new(|c: &Call| if c.kind == shim::K_WRITE && c.a > 1 { -1 } else { 0 }));
+    } else {
+        shim::install_monitor(&root); // no boundaries, only the watch for in-place writes under cas/ (if the shim is loaded)
+    }
     let r = st.exec(&json!({"op": "open"}), 0);
     out.emit(&json!({"ev": "op", "i": 0, "op": {"op": "open"}, "res": r, "obs": st.observe()}));
     for (i, op) in ops.iter().enumerate() {
@@ -289,6 +296,9 @@ fn run_plain<K: HKey>(sid: &Value, cfg: &Cfg, ops: &[Value], sel0: usize, scratc
         out.emit(&json!({"ev": "op", "i": i + 1, "op": op, "res": r, "obs": st.observe()}));
     }
     st.close();
+    if short_writes {
+        shim::uninstall();
+    }
     let _ = fs::remove_dir_all(&root);
 }
 
